@@ -53,6 +53,7 @@ type tcase struct {
 	Note   string   `json:"note,omitempty"` // generator label
 	Tight  bool     `json:"tight,omitempty"` // body built from chosen codes: the tighter time allowance applies
 	Live   bool     `json:"live,omitempty"`  // sample the live heap during the decode
+	MaxOut int64    `json:"max_out,omitempty"` // the image the body declares has this many bytes: no more may be decoded
 	body   []byte
 }
 
